@@ -64,19 +64,24 @@ def emit(sp):
         for f, p in cfg:
             e = e.replace("{%s}" % p, subst(f, p))
         return e
-    shyps = sp.get("state_hyps", "") + " ".join("(hd%d : s.%s = %s)" % (i, f, dexpr(e, lambda f_, p_: "s.%s" % f_)) for i, (f, e) in enumerate(derived))
+    invs = sp.get("inv", [])           # extra conjuncts of Cfg: predicates on the state `s`, preserved by update
+    import re as _re
+    prime = lambda t: _re.sub(r"\bs\.", "s'.", t)
+    shyps = sp.get("state_hyps", "") + " ".join("(hi%d : %s)" % (i, t) for i, t in enumerate(invs)) + " " + " ".join("(hd%d : s.%s = %s)" % (i, f, dexpr(e, lambda f_, p_: "s.%s" % f_)) for i, (f, e) in enumerate(derived))
     shn = " ".join(h.split(":")[0].strip("( ") for h in shyps.split(")") if ":" in h)
     limp = sp.get("lemma_implicit", "")
     o += ("theorem upd_eq %s " + limp + " (s : %s) (x : α) %s :\n    (update %s s x).map (abs %s) = (%s).upd (abs %s s) x := by\n  %s\n") % ((
         chb, sty, shyps, cha, cha, model_s, cha, sp.get("upd_proof", "simp only [update, wrap, mapV, binop, %s, abs]; gen_tie" % unfold)))
-    cfgprop = " ∧ ".join("s'.%s = s.%s" % (f, f) for f, p in cfg + derived) or "True"
-    o += "theorem upd_cfg %s (s s' : %s) (x : α) : update %s s x = .ok s' → %s := by\n  %s\n" % (
-        chb, sty, cha, cfgprop, sp.get("cfg_proof", "simp only [update, %s]; gen_tie" % unfold))
+    cfgprop = " ∧ ".join(["s'.%s = s.%s" % (f, f) for f, p in cfg + derived] + [prime(t) for t in invs]) or "True"
+    ihyps = " ".join("(hi%d : %s)" % (i, t) for i, t in enumerate(invs))
+    o += "theorem upd_cfg %s (s s' : %s) (x : α) %s : update %s s x = .ok s' → %s := by\n  %s\n" % (
+        chb, sty, ihyps, cha, cfgprop, sp.get("cfg_proof", "simp only [update, %s]; gen_tie" % unfold))
     o += ("theorem last_eq %s " + limp + " (s : %s) %s : last %s s = (%s).last (abs %s s) := by\n  %s\n\n") % ((
         chb, sty, shyps, cha, model_s, cha, sp.get("last_proof", "simp only [last, wrap, mapV, binop, %s, abs]; gen_tie" % unfold)))
-    cfgP = " ∧ ".join(["s.%s = %s" % (f, p) for f, p in cfg] + ["s.%s = %s" % (f, dexpr(e, lambda f_, p_: p_)) for f, e in derived]) or "True"
+    cfgP = " ∧ ".join(["s.%s = %s" % (f, p) for f, p in cfg] + ["s.%s = %s" % (f, dexpr(e, lambda f_, p_: p_)) for f, e in derived] + list(invs)) or "True"
     n = len(cfg) + len(derived)
     nplain = len(cfg)
+    ninv = len(invs)
     def destr(h):
         if n == 0: return ""
         if n == 1: return "obtain rfl := %s; " % h if False else ""
@@ -86,22 +91,17 @@ def emit(sp):
     o += "  init_cfg := by simp [mkView, s0]\n  init_abs := by %s\n" % sp.get("init_proof", "rfl")
     # rewrite the parameters by the state's fields, then apply the lemmas
     n = len(cfg) + len(derived)
-    pat = "⟨" + ", ".join("h%d" % i for i in range(n)) + "⟩" if n > 1 else ("h0" if n == 1 else "_")
-    rw = "".join("subst h%d; " % i for i in range(n))
-    if sp.get("state_hyps_from") is None:
-        sp = dict(sp, state_hyps_from=" ".join("h%d" % i for i in range(len(cfg), len(cfg) + len(derived))))
-    sh = sp.get("state_hyps_from", "")   # how to discharge state_hyps inside sim
-    o += "  upd s x hs := by\n    have := upd_eq %s s x %s\n    %s\n    simpa [%s] using this\n" % (cha, sh.replace("h0", "hs") if n == 1 else sh, pat if n != 1 else "h0", ", ".join("h%d" % i for i in range(n)) or "mkView") \
-        if False else ""
-    ob = ("obtain %s := hs" % pat) if n > 1 else (("have h0 : %s := hs" % cfgP) if n == 1 else "skip")
-    plain_hs = ", ".join("h%d" % i for i in range(nplain))
+    nt = n + ninv
+    pat = "⟨" + ", ".join("h%d" % i for i in range(nt)) + "⟩" if nt > 1 else ("h0" if nt == 1 else "_")
+    ob = ("obtain %s := hs" % pat) if nt > 1 else (("have h0 : %s := hs" % cfgP) if nt == 1 else "skip")
     tryrw = "; ".join("(try rw [h%d])" % i for i in range(nplain))
     conv = " ".join("(by %s; exact h%d)" % (tryrw, i) for i in range(nplain, n)) if nplain else " ".join("h%d" % i for i in range(nplain, n))
+    iargs = " ".join("h%d" % i for i in range(n, nt))
     sh0 = sp.get("state_hyps_from0", "")     # hypotheses of the lemmas that are parameters of `sim` (e.g. htot hrefl)
     fin = ("; ".join("(try rw [h%d] at this)" % i for i in range(nplain)) + "; exact this") if nplain else "exact this"
-    o += "  upd := fun (s : %s) x hs => by\n    %s\n    have := upd_eq %s s x %s %s\n    %s\n" % (sty, ob, cha, sh0, conv, fin)
-    o += "  upd_cfg := fun (s : %s) x s' hs h => by\n    %s\n    have := upd_cfg %s s s' x h\n    simp_all\n" % (sty, ob, cha)
-    o += "  last := fun (s : %s) hs => by\n    %s\n    have := last_eq %s s %s %s\n    %s\n\n" % (sty, ob, cha, sh0, conv, fin)
+    o += "  upd := fun (s : %s) x hs => by\n    %s\n    have := upd_eq %s s x %s %s %s\n    %s\n" % (sty, ob, cha, sh0, iargs, conv, fin)
+    o += "  upd_cfg := fun (s : %s) x s' hs h => by\n    %s\n    have := upd_cfg %s s s' x %s h\n    simp_all\n" % (sty, ob, cha, iargs)
+    o += "  last := fun (s : %s) hs => by\n    %s\n    have := last_eq %s s %s %s %s\n    %s\n\n" % (sty, ob, cha, sh0, iargs, conv, fin)
     o += "/-- the Rust text of `%s`, as translated, and the model agree on every input: same answers, same panics -/\n" % view
     o += "theorem tie %s %s %s (xs : List α) :\n    (mkView %s (update %s) (last %s)).trace %s xs = (%s).trace (%s).init xs :=\n  (%s).trace_eq xs\n" % (
         chb, params, hyps, s0app, cha, cha, s0app, model_p, model_p, ("sim %s %s %s" % (cha, pnames, hnames)) if (cha or pnames or hnames) else "sim (α := α)")
